@@ -179,6 +179,74 @@ fn exhaustive_env_part(name: &str, k: usize, seeds: u64, toggle_off: bool) -> Pa
     }
 }
 
+/// Every batch size n in 1..=150 (after the fixed seeding step): n instructions, mostly new limit orders on both
+/// sides with every fifth one crossing, plus up to four cancels / modifies of the seeded orders, processed in a
+/// step of n, n+1 or 3n+7 time units (or, `overfull`, of about n/2 and n-1 units), on Env<3> and MarketEnv<2,3>.
+fn exhaustive_batch_sizes(name: &str, overfull: bool, seeds: u64) -> Part<Case> {
+    const MAXN: u64 = 150;
+    let total = MAXN * 3 * 2 * seeds;
+    Part {
+        name: name.to_string(),
+        kind: PartKind::Exhaustive {
+            total,
+            decode: Box::new(move |i| {
+                let market = i % 2 == 1;
+                let i = i / 2;
+                let seed = i % seeds;
+                let i = i / seeds;
+                let sv = i % 3;
+                let n = (i / 3) as usize + 1;
+                let step_size: u64 = if overfull {
+                    match sv {
+                        0 => (n as u64 / 2).max(1),
+                        1 => (n as u64).saturating_sub(1).max(1),
+                        _ => (n as u64 / 3).max(1),
+                    }
+                } else {
+                    match sv {
+                        0 => n as u64,
+                        1 => n as u64 + 1,
+                        _ => 3 * n as u64 + 7,
+                    }
+                };
+                let n_assets = if market { 2 } else { 1 };
+                let mut seed_step = vec![];
+                for a in 0..n_assets as u8 {
+                    seed_step.push(Instr::New { asset: a, bid: true, vol: 3, trader: 9, price: Some(98) });
+                    seed_step.push(Instr::New { asset: a, bid: true, vol: 2, trader: 9, price: Some(100) });
+                    seed_step.push(Instr::New { asset: a, bid: false, vol: 3, trader: 9, price: Some(104) });
+                    seed_step.push(Instr::New { asset: a, bid: false, vol: 2, trader: 9, price: Some(106) });
+                }
+                // the seeding step must fit its own step size: it is stepped with the case's step size, so pad
+                // small step sizes by splitting the seeding over several steps
+                let mut steps: Vec<StepSpec> = vec![];
+                for chunk in seed_step.chunks(step_size.min(8) as usize) {
+                    steps.push(StepSpec { toggle: None, instrs: chunk.to_vec() });
+                }
+                let mut instrs = vec![];
+                for j in 0..n {
+                    let a = if market { (j % 2) as u8 } else { 0 };
+                    let k = j / n_assets;
+                    let ins = if j < 4 && n >= 6 {
+                        small_instr(6 + (j * 2) % 6, a)
+                    } else if k % 5 == 4 {
+                        Instr::New { asset: a, bid: k % 2 == 0, vol: 1 + (k % 3) as u32, trader: 2, price: Some(if k % 2 == 0 { 104 } else { 100 }) }
+                    } else if k % 2 == 0 {
+                        Instr::New { asset: a, bid: true, vol: 1 + (k % 4) as u32, trader: 1, price: Some(80 + 2 * (k % 10) as u32) }
+                    } else {
+                        Instr::New { asset: a, bid: false, vol: 1 + (k % 3) as u32, trader: 3, price: Some(106 + 2 * (k % 10) as u32) }
+                    };
+                    instrs.push(ins);
+                }
+                steps.push(StepSpec { toggle: None, instrs });
+                steps.push(StepSpec { toggle: None, instrs: vec![] });
+                Some(Case::Env(EnvCase { kind_assets: if market { 2 } else { 0 }, levels: 3, ticks: vec![2, 2], t0: 5, step_size, trading: true, seed: seed.wrapping_mul(0x9E37_79B9_7F4A_7C15) ^ crate::engine::verif_seed() ^ n as u64, steps, drain: !overfull, exact_vols: false }))
+            }),
+            description: format!("every batch size n in 1..=150 after a seeding step: n instructions (new limit orders on both sides, every fifth crossing, up to four cancels / modifies of the seeded orders) processed in a step of {} time units x {} seeds x {{Env<3>, MarketEnv<2,3>}}, then an empty step{}", if overfull { "about n/2, n-1 and n/3" } else { "n, n+1 and 3n+7" }, seeds, if overfull { "" } else { " and two draining steps" }),
+        },
+    }
+}
+
 pub fn parts(id: &'static str, tier: Tier) -> Option<(Vec<Part<Case>>, String)> {
     let common = "An environment case is a seed, a configuration (Env<L> for L in 1..24 or MarketEnv<A,L> for A in 1..4; tick sizes 1..10; step size) and a sequence of steps, each a batch of new-order / cancel / modify instructions whose order references are resolved at submission time (including orders created in the same batch), followed by two draining steps. ";
     match id {
@@ -196,7 +264,7 @@ pub fn parts(id: &'static str, tier: Tier) -> Option<(Vec<Part<Case>>, String)> 
             long.max_batch = 4;
             long.large_batch_pct = 0;
             Some((
-                vec![env_part("env-random-large-volumes", big_vol_cfg(&c, 16), tier.pick(6_000, 150_000)), env_part("env-random-long-runs", long, tier.pick(2_500, 60_000)), exhaustive_env_part("exhaustive-batches-of-2", 2, tier.pick(24, 64), false), exhaustive_env_part("exhaustive-batches-of-3", 3, tier.pick(4, 24), false), env_part("env-random-single", single, tier.pick(20_000, 600_000)), env_part("env-random-multi", multi, tier.pick(12_000, 300_000)), env_part("env-random-toggles", tog, tier.pick(8_000, 200_000))],
+                vec![exhaustive_batch_sizes("exhaustive-batch-sizes", false, tier.pick(2, 8)), env_part("env-random-large-volumes", big_vol_cfg(&c, 16), tier.pick(6_000, 150_000)), env_part("env-random-long-runs", long, tier.pick(2_500, 60_000)), exhaustive_env_part("exhaustive-batches-of-2", 2, tier.pick(24, 64), false), exhaustive_env_part("exhaustive-batches-of-3", 3, tier.pick(4, 24), false), env_part("env-random-single", single, tier.pick(20_000, 600_000)), env_part("env-random-multi", multi, tier.pick(12_000, 300_000)), env_part("env-random-toggles", tog, tier.pick(8_000, 200_000))],
                 format!("{}Oracle: after every step the set of processing orders consistent with everything observed so far (new orders pinned to position arrival-start, all arrangements of the other instructions) is replayed on REAL plain OrderBooks and must be non-empty, i.e. some permutation of the batch explains the environment's orders, trades and views exactly; plus clock = start+step size, per-step traded volume = that step's trades, empty steps change nothing. Non-trivial: at least one batch whose outcome depends on the processing order (measured by replaying the reversed order on the plain book).", common),
             ))
         }
@@ -208,7 +276,7 @@ pub fn parts(id: &'static str, tier: Tier) -> Option<(Vec<Part<Case>>, String)> 
             long.max_steps = 24;
             long.max_batch = 4;
             long.large_batch_pct = 0;
-            Some((vec![env_part("marketenv-random-long-runs", long, tier.pick(2_000, 50_000)), exhaustive_env_part("exhaustive-batches-of-2", 2, tier.pick(16, 64), false), exhaustive_env_part("exhaustive-batches-of-3", 3, tier.pick(2, 16), false), env_part("marketenv-random", c, tier.pick(12_000, 300_000))], format!("{}MarketEnv cases: schedule inference as in C08 with an array of stand-alone real books as reference, each asset's instructions replayed on its own book at the candidate's global times. Non-trivial: >= 2 assets with resting orders and an order-sensitive batch.", common)))
+            Some((vec![exhaustive_batch_sizes("exhaustive-batch-sizes", false, tier.pick(1, 4)), env_part("marketenv-random-long-runs", long, tier.pick(2_000, 50_000)), exhaustive_env_part("exhaustive-batches-of-2", 2, tier.pick(16, 64), false), exhaustive_env_part("exhaustive-batches-of-3", 3, tier.pick(2, 16), false), env_part("marketenv-random", c, tier.pick(12_000, 300_000))], format!("{}MarketEnv cases: schedule inference as in C08 with an array of stand-alone real books as reference, each asset's instructions replayed on its own book at the candidate's global times. Non-trivial: >= 2 assets with resting orders and an order-sensitive batch.", common)))
         }
         "C10" => {
             let mut c = EnvGenCfg::base();
@@ -218,7 +286,7 @@ pub fn parts(id: &'static str, tier: Tier) -> Option<(Vec<Part<Case>>, String)> 
             long.max_steps = 80;
             long.max_batch = 5;
             Some((
-                vec![env_part("env-random-large-volumes", big_vol_cfg(&c, 24), tier.pick(15_000, 300_000)), env_part("env-random-long-runs", long, tier.pick(4_000, 100_000)), exhaustive_env_part("exhaustive-batches-of-3", 3, tier.pick(4, 24), false), env_part("env-random-submissions", c, tier.pick(150_000, 2_000_000))],
+                vec![exhaustive_batch_sizes("exhaustive-batch-sizes", false, 1), env_part("env-random-large-volumes", big_vol_cfg(&c, 24), tier.pick(15_000, 300_000)), env_part("env-random-long-runs", long, tier.pick(4_000, 100_000)), exhaustive_env_part("exhaustive-batches-of-3", 3, tier.pick(4, 24), false), env_part("env-random-submissions", c, tier.pick(150_000, 2_000_000))],
                 format!("{}Oracle: the complete observable state of the environment (live book snapshot per asset, every recorded series, cached level-2) is compared before and after EVERY submission and must be identical except for exactly one appended order record with status New; the cached level-2 must equal the live book's level-2 after construction, after every submission and after every step. Non-trivial: a submission that would trade or move the touch if applied directly, against a non-empty book.", common),
             ))
         }
@@ -241,7 +309,7 @@ pub fn parts(id: &'static str, tier: Tier) -> Option<(Vec<Part<Case>>, String)> 
             tog.w_new = 50;
             tog.max_batch = 6;
             Some((
- vec![env_part("env-random-toggles", tog, tier.pick(40_000, 600_000)), env_part("env-random-large-volumes", big_vol_cfg(&c, 24), tier.pick(15_000, 300_000)), env_part("env-random-very-long-runs", longer, tier.pick(600, 12_000)), env_part("env-random-long-runs", long, tier.pick(5_000, 120_000)), exhaustive_env_part("exhaustive-batches-of-3", 3, tier.pick(4, 24), false), env_part("env-random-records", c, tier.pick(200_000, 3_000_000))],
+ vec![exhaustive_batch_sizes("exhaustive-batch-sizes", false, tier.pick(1, 4)), env_part("env-random-toggles", tog, tier.pick(40_000, 600_000)), env_part("env-random-large-volumes", big_vol_cfg(&c, 24), tier.pick(15_000, 300_000)), env_part("env-random-very-long-runs", longer, tier.pick(600, 12_000)), env_part("env-random-long-runs", long, tier.pick(5_000, 120_000)), exhaustive_env_part("exhaustive-batches-of-3", 3, tier.pick(4, 24), false), env_part("env-random-records", c, tier.pick(200_000, 3_000_000))],
                 format!("{}Oracle: after step k every recorded series (touch prices, side volumes, touch volumes and counts, per-level volumes and counts for each of the L levels, per-step traded volume) has exactly k entries, entry k-1 equals the value read from the live book after the step (bid series vs bid getters), earlier entries are unchanged, and traded volume k-1 equals both the volume logged during the step and the volume of trades time-stamped within it. Non-trivial: a step whose book differs between bid and ask in total volume, touch volume and touch count and has an occupied level >= 1 on both sides.", common),
             ))
         }
@@ -268,7 +336,7 @@ pub fn parts(id: &'static str, tier: Tier) -> Option<(Vec<Part<Case>>, String)> 
             big.large_batch_pct = 100;
             big.max_steps = 3;
             Some((
-                vec![env_part("env-overfull-large-batches", big, tier.pick(1_500, 40_000)), env_part("env-overfull-steps", c, tier.pick(12_000, 400_000))],
+                vec![exhaustive_batch_sizes("exhaustive-overfull-batch-sizes", true, tier.pick(1, 4)), env_part("env-overfull-large-batches", big, tier.pick(1_500, 40_000)), env_part("env-overfull-steps", c, tier.pick(12_000, 400_000))],
                 format!("{}Overfull cases: step size 1..4 with up to 4x as many instructions per step, several consecutive steps, so intra-step timestamps run into the next step; plus overfull large batches (33..64 instructions in a step of 8..16 time units, Env and MarketEnv<1..4>). Oracle: C08's schedule inference against real plain books replayed with the same (partly repeating) times, model-free view / ledger audits after every step, and after the final drain no resting order may remain (every order is executed). Non-trivial: an overfull step and at least one trade.", common),
             ))
         }
